@@ -23,4 +23,5 @@ PROPERTY MoveIsCopyStoreExpunge
 PROPERTY ExpungeExact
 PROPERTY FetchSeenExact
 PROPERTY StoreExact
+PROPERTY OtherLeavesSession
 CHECK_DEADLOCK FALSE
